@@ -365,3 +365,92 @@ func VerifC05ExtractFree() {
 	p, err := ExtractReversedAddr(s)
 	c05Compare(p, err, c05RefExtract(s), "ExtractReversedAddr")
 }
+
+// c05V6Full: 30..33 labels in front of ip6.arpa (so the 72-byte full-address
+// form and its neighbours); one label (any position) is 1..3 arbitrary ASCII
+// bytes wide and its two neighbour labels are one arbitrary ASCII byte each;
+// all other labels are fixed hex digits.
+func c05V6Full() string {
+	k := 30 + verifrt.Choice(4)
+	wide := verifrt.Choice(k)
+	var b []byte
+	for i := 0; i < k; i++ {
+		if i > 0 {
+			b = append(b, '.')
+		}
+		switch {
+		case i == wide:
+			w := 1 + verifrt.Choice(3)
+			for j := 0; j < w; j++ {
+				c := verifrt.Byte()
+				verifrt.Assume(c < 0x80 && c != 'x' && c != '.')
+				b = append(b, c)
+			}
+		case i == wide-1 || i == wide+1:
+			c := verifrt.Byte()
+			verifrt.Assume(c < 0x80 && c != '.')
+			b = append(b, c)
+		default:
+			b = append(b, "0123456789abcdefABCDEF"[(i*7)%22])
+		}
+	}
+	b = c05Root(b, "ip6.arpa", true)
+
+	return string(b)
+}
+
+// VerifC05PrefixV6Full: PrefixFromReversedAddr around the full-address length.
+func VerifC05PrefixV6Full() {
+	s := c05V6Full()
+	p, err := PrefixFromReversedAddr(s)
+	c05Compare(p, err, c05RefPrefix(c05TrimDot(s)), "PrefixFromReversedAddr")
+}
+
+// VerifC05ExtractV6Full: ExtractReversedAddr around the full-address length.
+func VerifC05ExtractV6Full() {
+	s := c05V6Full()
+	p, err := ExtractReversedAddr(s)
+	c05Compare(p, err, c05RefExtract(s), "ExtractReversedAddr")
+}
+
+// VerifC05UnicodeRoot: label sequences in front of a root in which one byte is
+// replaced by an arbitrary two-byte UTF-8 rune (thorough: or a three-byte
+// rune): no Unicode case mapping may turn such a name into a reversed one.
+func VerifC05UnicodeRoot() {
+	root := [...]string{"in-addr.arpa", "ip6.arpa"}[verifrt.Choice(2)]
+	var b []byte
+	for k := verifrt.Len(2); k > 0; k-- {
+		d := verifrt.Byte()
+		verifrt.Assume(d >= '0' && d <= '9')
+		b = append(b, d, '.')
+	}
+	pos := verifrt.Choice(len(root))
+	three := false
+	if verifrt.Thorough() {
+		three = verifrt.Bool2()
+	}
+	for i := 0; i < len(root); i++ {
+		if i != pos {
+			b = append(b, root[i])
+
+			continue
+		}
+		if three {
+			c0, c1, c2 := verifrt.Byte(), verifrt.Byte(), verifrt.Byte()
+			verifrt.Assume(c0 >= 0xe1 && c0 <= 0xec && c1 >= 0x80 && c1 <= 0xbf && c2 >= 0x80 && c2 <= 0xbf)
+			b = append(b, c0, c1, c2)
+		} else {
+			c0, c1 := verifrt.Byte(), verifrt.Byte()
+			verifrt.Assume(c0 >= 0xc2 && c0 <= 0xdf && c1 >= 0x80 && c1 <= 0xbf)
+			b = append(b, c0, c1)
+		}
+	}
+	s := string(b)
+	_, err := PrefixFromReversedAddr(s)
+	verifrt.ObserveBool("prefix-ok", err == nil)
+	verifrt.Assert(err != nil, "PrefixFromReversedAddr accepted a name with a non-ASCII rune in the ARPA root")
+	_, err = ExtractReversedAddr(s)
+	verifrt.ObserveBool("extract-ok", err == nil)
+	verifrt.Assert(err != nil, "ExtractReversedAddr found a reversed address in a name with a non-ASCII rune in the ARPA root")
+	verifrt.Cover("rejected")
+}
